@@ -98,6 +98,12 @@ def generate(tier, rng):
     out.append(reader_line("AIOR", 100000, frb, None, "src", [4, 30000, "E", 100000], ""))
     out.append(reader_line("AIOR", 100000, frb, None, "src", [4, 65535, "P", 1, "P", 100000], "XX"))
     out.append(reader_line("AIOR", 100000, frb, None, "src", [3, "P", 1, 1, "P", 65536, "P", 100000], "XXX"))
+    # a frame larger than 128 KiB (a reader that commits its buffer lazily has another seam there)
+    huge = bytes((i * 11 + 5) & 0xff for i in range(200000))
+    frh = [good(huge), good(b"\x07")]
+    out.append(reader_line("AIOR", 300000, frh, None, "src", [300000], ""))
+    out.append(reader_line("AIOR", 300000, frh, None, "src", [4, 131072, "P", 1, "P", 300000], "XP"))
+    out.append(reader_line("AIOR", 300000, frh, None, "src", [4, 100000, "E", 31072, "P", 300000], "X"))
     return out
 
 def _kv(line, key):
